@@ -340,6 +340,9 @@ DB = "nostr_relay/storage/db.py"
 KV = "nostr_relay/storage/kv.py"
 
 MUTANTS = [
+] + [
+    M("c09-" + m.id, m.rel, m.old, m.new, "C09.txn", m.where, False, m.count) for m in __import__("sa.props.c07", fromlist=["MUTANTS"]).MUTANTS if m.expect == "C07.sqlregion"
+] + [
     M("c09-kv-contacts-dropped", KV, "                EventKind.SET_METADATA,\n                EventKind.CONTACTS,\n", "                EventKind.SET_METADATA,\n", "C09.classes", canary=True),
     M("c09-sql-kind-conjunct", DB, "                (self.EventTable.c.pubkey == bytes.fromhex(event.pubkey))\n                & (self.EventTable.c.kind == event.kind)\n                & (self.EventTable.c.created_at < event.created_at)\n            )\n            result",
       "                (self.EventTable.c.pubkey == bytes.fromhex(event.pubkey))\n                & (self.EventTable.c.created_at < event.created_at)\n            )\n            result", "C09.frame"),
